@@ -73,7 +73,7 @@ Ltac inv_step H :=
 (* cancel_act / cancel_roots described pointwise *)
 
 Definition act_after_cancel (a a' : aphase) : Prop :=
-  a' = a \/ (a' = AStopCore (Some OCancelled) /\ (a = AStartup \/ a = AWaitRoots)) \/ (a' = AWaitRoots /\ a = ASleep) \/
+  a' = a \/ (a' = AStopCore (Some OCancelled) /\ (a = AStartup \/ a = AStartupBad \/ a = AWaitRoots)) \/ (a' = AWaitRoots /\ a = ASleep) \/
   (a' = AEnd /\ (exists p, a = AStopCore p) ) \/ (a' = AEnd /\ (a = ACleanup \/ a = ACleanupRun)).
 
 Lemma cancel_act_spec : forall s s', cancel_act s = Some s' ->
@@ -178,7 +178,7 @@ Proof.
   { intros t Ht E. specialize (Hnr t Ht). rewrite E in Hnr; discriminate. }
   destruct l; unfold step in H.
   - (* StartupOk *) inv_step H; cbn; auto.
-  - inv_step H. intros t Ht; cbn. destruct (cancel_in_cases (ph s) [TAuth] t) as [->| ->]; auto using quiet_cancel.
+  - inv_step H; intros t Ht; cbn; destruct (cancel_in_cases (ph s) [TAuth] t) as [->| ->]; auto using quiet_cancel.
   - (* Flag *) inv_step H. cbn in Hs'. discriminate.
   - inv_step H; cbn; auto.
   - (* Cancel *) inv_step H; cbn; auto.
@@ -232,6 +232,7 @@ Proof.
         destruct (upd_cases f x p t0) as [[-> ->]|[? ->]]; [discriminate Ht0 | now apply Hq] end.
   - inv_step H; auto.
   - inv_step H; auto.
+  - (* StartupHandler *) inv_step H; cbn; auto.
 Qed.
 
 Lemma Inv_quiet_init : Inv_quiet init.
@@ -341,20 +342,21 @@ Proof.
   intros s l s' H H0 H1. destruct l; auto; exfalso; unfold step in H; inv_step H; use_cancel_spec; cbn in *; congruence.
 Qed.
 
-Definition Inv_early (s : state) : Prop := act s = AStartup \/ act s = AFlag -> started s = false.
+Definition Inv_early (s : state) : Prop := act s = AStartup \/ act s = AFlag \/ act s = AStartupBad -> started s = false.
 
-Lemma act_after_cancel_early : forall a a', act_after_cancel a a' -> a' = AStartup \/ a' = AFlag -> a' = a.
+Lemma act_after_cancel_early : forall a a', act_after_cancel a a' -> a' = AStartup \/ a' = AFlag \/ a' = AStartupBad -> a' = a.
 Proof.
   intros a a' H H1. unfold act_after_cancel in H.
-  destruct H as [->|[[-> _]|[[-> _]|[[-> _]|[-> _]]]]]; auto; destruct H1; discriminate.
+  destruct H as [->|[[-> _]|[[-> _]|[[-> _]|[-> _]]]]]; auto; destruct H1 as [H1|[H1|H1]]; discriminate.
 Qed.
 
 Lemma Inv_early_step : forall s l s', Inv_early s -> step s l = Some s' -> Inv_early s'.
 Proof.
   intros s l s' Hi H Hs'. unfold Inv_early in Hi.
   destruct l; unfold step in H; inv_step H; use_cancel_spec; cbn in *;
-    try (destruct Hs'; discriminate);
+    try (destruct Hs' as [Hs'|[Hs'|Hs']]; discriminate);
     try (apply Hi; rewrite <- ?E; rewrite <- ?E0; auto; fail);
+    try (apply Hi; auto; fail);
     try (match goal with Hc : act_after_cancel _ _ |- _ =>
            pose proof (act_after_cancel_early _ _ Hc Hs') as Hk; rewrite Hk in Hs'; specialize (Hi Hs'); congruence end).
 Qed.
@@ -369,7 +371,7 @@ Proof.
       try (match goal with Hc : act_after_cancel _ _ |- _ =>
              destruct (act_after_cancel_keeps _ _ Hc H2 H3); repeat split; congruence end).
   - pose proof (sfailed_only_StartupFail _ _ _ H Ef Hs'); subst l.
-    unfold step in H. inv_step H. cbn. repeat split; try discriminate. apply He; auto.
+    unfold step in H. inv_step H; cbn; repeat split; try discriminate; apply He; auto.
 Qed.
 
 Lemma Inv_sfailed_reach : forall tr s, run init tr = Some s -> Inv_early s /\ Inv_sfailed s.
@@ -378,6 +380,7 @@ Proof.
   - intros s0 l s1 [A B] Hst. split; [eapply Inv_early_step | eapply Inv_sfailed_step]; eauto.
   - split; [intros _; reflexivity | intros Hf; discriminate Hf].
 Qed.
+
 
 Lemma sfailed_mono_step : forall s l s', step s l = Some s' -> sfailed s = true -> sfailed s' = true.
 Proof.
@@ -391,17 +394,9 @@ Proof.
   - destruct (step s0 l) as [s'|] eqn:E; [|discriminate]. eapply IH; eauto using sfailed_mono_step.
 Qed.
 
-(* a failed startup: no API request anywhere in the run, neither before nor after *)
-Lemma failed_startup_no_api : forall tr s, run init tr = Some s -> In StartupFail tr ->
-  started s = false /\ ready s = false /\ forall t, ~ In (Api t) tr.
+Lemma never_started_no_api : forall tr s, run init tr = Some s -> started s = false -> forall t, ~ In (Api t) tr.
 Proof.
-  intros tr s H Hin.
-  assert (Hsf : sfailed s = true).
-  { apply in_split in Hin as (pre&post&->). apply run_split in H as (s0&s1&_&Hst&Hpost).
-    eapply sfailed_mono; eauto. unfold step in Hst. inv_step Hst. reflexivity. }
-  destruct (Inv_sfailed_reach _ _ H) as [_ Hi]. destruct (Hi Hsf) as (Hs&_&_).
-  split; [exact Hs|]. split; [rewrite (ready_eq_started _ _ H); exact Hs|].
-  intros t Hapi. apply in_split in Hapi as (pre&post&->).
+  intros tr s H Hs t Hapi. apply in_split in Hapi as (pre&post&->).
   pose proof (api_after_flag _ _ _ _ H) as Hfl.
   apply run_split in H as (s0&s1&Hpre&Hst&Hpost).
   assert (Hs0 : started s0 = true).
@@ -409,6 +404,59 @@ Proof.
     eapply started_mono; eauto. unfold step in Hf. inv_step Hf. reflexivity. }
   assert (Hs1 : started s1 = true) by (eapply started_mono_step; eauto).
   rewrite (started_mono _ _ _ Hpost Hs1) in Hs. discriminate.
+Qed.
+
+(* a failed startup: no API request anywhere in the run, neither before nor after *)
+Lemma failed_startup_no_api : forall tr s, run init tr = Some s -> In StartupFail tr ->
+  started s = false /\ ready s = false /\ forall t, ~ In (Api t) tr.
+Proof.
+  intros tr s H Hin.
+  assert (Hsf : sfailed s = true).
+  { apply in_split in Hin as (pre&post&->). apply run_split in H as (s0&s1&_&Hst&Hpost).
+    eapply sfailed_mono; eauto. unfold step in Hst. inv_step Hst; reflexivity. }
+  destruct (Inv_sfailed_reach _ _ H) as [_ Hi]. destruct (Hi Hsf) as (Hs&_&_).
+  split; [exact Hs|]. split; [rewrite (ready_eq_started _ _ H); exact Hs|].
+  eapply never_started_no_api; eauto.
+Qed.
+
+(* once the startup activity can no longer succeed, the flag is never set: a stable set of states *)
+Definition noflag (s : state) : Prop := started s = false /\ act s <> AStartup /\ act s <> AFlag.
+
+Lemma noflag_step : forall s l s', noflag s -> step s l = Some s' -> noflag s'.
+Proof.
+  intros s l s' (H1&H2&H3) H. unfold noflag.
+  destruct l; unfold step in H; inv_step H; use_cancel_spec; cbn in *;
+    try (repeat split; congruence);
+    try (match goal with Hc : act_after_cancel _ _ |- _ =>
+           destruct (act_after_cancel_keeps _ _ Hc H2 H3); repeat split; congruence end).
+Qed.
+
+Lemma noflag_run : forall tr s s', noflag s -> run s tr = Some s' -> noflag s'.
+Proof. intros tr s s' Hn H. eapply (run_inv noflag); eauto using noflag_step. Qed.
+
+(* ANY final failure of ANY startup handler in ANY round of run_activity: the activity cannot end with StartupOk
+   any more, the flags are never raised, and there is no API request anywhere in the run; the only way the activity
+   itself ends is StartupFail (or the cancellation of the task) *)
+Lemma startup_handler_failure_no_api : forall tr s h, run init tr = Some s -> In (StartupHandler h HPerm) tr ->
+  started s = false /\ ready s = false /\ (forall t, ~ In (Api t) tr) /\
+  (forall pre post, tr = pre ++ StartupHandler h HPerm :: post -> ~ In StartupOk post /\ ~ In Flag post).
+Proof.
+  intros tr s h H Hin.
+  assert (Hk : forall pre post, tr = pre ++ StartupHandler h HPerm :: post ->
+               exists s1, run s1 post = Some s /\ noflag s1).
+  { intros pre post ->. apply run_split in H as (s0&s1&Hpre&Hst&Hpost). exists s1. split; [exact Hpost|].
+    destruct (Inv_sfailed_reach _ _ Hpre) as [He _]. unfold Inv_early in He.
+    unfold step in Hst. inv_step Hst; cbn; unfold noflag; cbn; repeat split; try discriminate; try congruence;
+      try (apply He; rewrite ?E; auto). }
+  pose proof Hin as Hin2. apply in_split in Hin2 as (pre&post&Etr).
+  destruct (Hk _ _ Etr) as (s1&Hpost&Hn1).
+  destruct (noflag_run _ _ _ Hn1 Hpost) as (Hs&_&_).
+  split; [exact Hs|]. split; [rewrite (ready_eq_started _ _ H); exact Hs|].
+  split; [eapply never_started_no_api; eauto|].
+  intros pre' post' Etr'. destruct (Hk _ _ Etr') as (s1'&Hpost'&Hn1').
+  split; intros Hx; apply in_split in Hx as (p1&p2&->); apply run_split in Hpost' as (a&b&Hp1&Hst&_);
+    destruct (noflag_run _ _ _ Hn1' Hp1) as (_&Ha1&Ha2); unfold step in Hst;
+    destruct (act a); try discriminate; try contradiction.
 Qed.
 
 Lemma ready_after_startup : forall tr s, run init tr = Some s -> ready s = true ->
